@@ -1321,3 +1321,51 @@ Qed.
 Example max_retries_zero_unbounded_example :
   length (w_reqs (write (mkCfg 0 0 0 true) v1_name MGogo (fun _ => 0) (repeat (r503, CNone) 40 ++ [(r200, CNone)]))) = 41%nat.
 Proof. vm_compute. reflexivity. Qed.
+
+(* ================= what a pass of the checker means for observed values ================= *)
+Lemma reqs_ok_nth t : forall l i j q,
+  reqs_ok t i l = true -> nth_error l j = Some q ->
+  oq_body_ok q = true /\ spec_headers_ok t (i + Z.of_nat j) (oq q) = true.
+Proof.
+  induction l as [|x l IH]; intros i j q H Hn; [destruct j; discriminate|].
+  simpl in H. apply andb_true_iff in H. destruct H as [H H3]. apply andb_true_iff in H. destruct H as [H1 H2].
+  destruct j.
+  - inversion Hn; subst. rewrite Z.add_0_r. auto.
+  - simpl in Hn. destruct (IH (i + 1) j q H3 Hn) as [A B]. split; [exact A|].
+    replace (i + Z.of_nat (S j)) with (i + 1 + Z.of_nat j) by lia. exact B.
+Qed.
+
+Lemma spec_write_ok_meaning_lemma cfg ty k script ob t :
+  validate ty = Some t -> marshals k = true -> spec_write_ok cfg ty k script ob = true ->
+  let seen := map fst (firstn (length (ob_reqs ob)) script) in
+  (forall j q, nth_error (ob_reqs ob) j = Some q ->
+     oq_body_ok q = true /\ spec_headers_ok t (Z.of_nat j) (oq q) = true) /\
+  (forall i o, nth_error seen i = Some o -> (S i < length seen)%nat -> spec_retryable cfg o = true) /\
+  (0 < c_max_retries cfg -> Z.of_nat (length (ob_reqs ob)) <= c_max_retries cfg + 1) /\
+  (ob_err ob = WNil -> exists last tl, rev seen = last :: tl /\ is_2xx last = true).
+Proof.
+  intros V M H seen. unfold spec_write_ok in H. rewrite V in H. fold seen in H.
+  assert (H' : reqs_ok t 0 (ob_reqs ob) = true /\
+               forallb (spec_retryable cfg) (removelast seen) = true /\
+               (if 0 <? c_max_retries cfg then Z.of_nat (length (ob_reqs ob)) <=? c_max_retries cfg + 1
+                else if c_max_retries cfg <? 0 then (length (ob_reqs ob) <=? 1)%nat else true) = true /\
+               (if werr_eqb (ob_err ob) WNil
+                then match rev seen with
+                     | last :: _ => is_2xx last && match t with
+                                                   | V2 => has_stat_header last || negb (eq3 (ob_samples ob, ob_hist ob, ob_exem ob) (0, 0, 0))
+                                                   | V1 => true
+                                                   end
+                     | [] => false
+                     end
+                else true) = true).
+  { destruct k; try discriminate;
+      repeat (apply andb_true_iff in H; destruct H as [H ?]); repeat split; assumption. }
+  clear H. destruct H' as (H1 & H2 & H3 & H4). repeat split.
+  - apply (reqs_ok_nth t _ 0 j q H1 H).
+  - apply (reqs_ok_nth t _ 0 j q H1 H).
+  - intros i o Hn Hi. rewrite forallb_forall in H2. apply H2.
+    apply nth_error_In with (n := i). rewrite nth_error_removelast by exact Hi. exact Hn.
+  - intros Hm. apply Z.ltb_lt in Hm. rewrite Hm in H3. apply Z.leb_le. exact H3.
+  - intros E. rewrite E in H4. simpl in H4. destruct (rev seen) as [|last tl]; [discriminate|].
+    apply andb_true_iff in H4. destruct H4 as [H4 _]. exists last, tl. auto.
+Qed.
